@@ -214,6 +214,9 @@ PROPS["C06"] = {
         "Lace.C06.loader_accepts_iff",
         "Lace.C06.loader_never_panics",
         "Lace.C03.load_spec",
+        "Lace.C06.runLoaded_fuel_mono",
+        "Lace.C06.runObjFile_fuel_mono",
+        "Lace.C06.runAssembled_fuel_mono",
     ],
     "needs_bin": True,
     "compare": cmp_proc,
